@@ -55,7 +55,34 @@ pub open spec fn evicted<R>(m0: Map<String, CacheEntry<R>>, q0: Seq<String>, m1:
 }
 ''')
 
-COMMON = ENTRY_ITEMS + [ENTRY_SPEC] + POLICY_ITEMS + STATS_ITEMS + [ENGINE_SPEC]
+MEM_SPEC = dict(kind='raw', label='mem_spec', text='''
+/// size of one sync cache entry as the memory limit counts it: the estimate of its value
+pub open spec fn entry_mem<R: MemoryEstimator>() -> spec_fn(CacheEntry<R>) -> nat { |e: CacheEntry<R>| e.value.mem() }
+
+/// C05: total size of the cached values
+pub open spec fn mem_total<R: MemoryEstimator>(m: Map<String, CacheEntry<R>>, q: Seq<String>) -> nat { total_q(m, q, entry_mem::<R>()) }
+
+/// counters never saturate (assumption reported in the evidence: 2^64 hits on one entry are unreachable)
+pub open spec fn freq_ok<R>(m: Map<String, CacheEntry<R>>) -> bool {
+    forall|k: String| m.contains_key(k) ==> (#[trigger] m[k]).frequency < u64::MAX
+}
+
+/// R4: `map.values().map(|e| e.value.estimate_memory()).sum::<usize>()` -- assumed contract of the std adapters:
+/// the sum of the estimates over every stored entry, i.e. along any duplicate-free enumeration of the keys
+/// (machine arithmetic: stated for totals that fit usize).
+#[verifier::external_body]
+pub fn sum_estimates<R: MemoryEstimator>(m: &HashMap<String, CacheEntry<R>>) -> (r: usize)
+    ensures forall|q: Seq<String>| #[trigger] wf(m@, q) && mem_total(m@, q) <= usize::MAX ==> r == mem_total(m@, q)
+{ unimplemented!() }
+
+/// R4: `opt.map(|e| e.value.estimate_memory()).unwrap_or(0)`
+#[verifier::external_body]
+pub fn opt_estimate<R: MemoryEstimator>(o: Option<&CacheEntry<R>>) -> (r: usize)
+    ensures r == (match o { Some(e) => e.value.mem(), None => 0 })
+{ unimplemented!() }
+''')
+
+COMMON = ENTRY_ITEMS + [ENTRY_SPEC] + POLICY_ITEMS + STATS_ITEMS + [ENGINE_SPEC, MEM_SPEC]
 
 
 # ---------------------------------------------------------------------------------------------
@@ -111,8 +138,8 @@ def incr_ensures(m):
 
 def evict_requires(m, o):
     return [('wf', 'wf(old(%s)@, old(%s)@)' % (m, o)),
-            # call sites: the entry just stored sits at the back of the queue with zero hits
-            ('newcomer_unsaturated', 'old(%s)@.len() > 0 ==> old(%s)@.contains_key(old(%s)@.last()) && old(%s)@[old(%s)@.last()].frequency < u64::MAX' % (o, m, o, m, o)),
+            # call sites: some stored entry has an unsaturated hit counter (insert: the entry just stored has zero hits)
+            ('some_unsaturated', 'old(%s)@.len() > 0 ==> exists|j: int| 0 <= j < old(%s)@.len() && old(%s)@[#[trigger] old(%s)@[j]].frequency < u64::MAX' % (o, o, m, o)),
             # implied by wf; stated so that the terms are available to the solver
             ('front_stored', 'old(%s)@.len() > 0 ==> old(%s)@.contains_key(old(%s)@[0]) && old(%s)@.contains(old(%s)@[0])' % (o, m, o, o, o))]
 
@@ -147,3 +174,33 @@ def insert_ensures(m, stats=True):
     if stats:
         e.append(('stats_frame', ['C15'], 'final(self).stats == old(self).stats'))
     return e
+
+
+def insertm_requires(m):
+    return wf_pre(m) + [
+        ('counters_unsaturated', 'freq_ok(old(self).%s@)' % m),
+        ('no_usize_overflow', 'mem_total(old(self).%s@, old(self).order@) + value.mem() <= usize::MAX' % m),
+    ]
+
+
+def insertm_ensures(m):
+    M0 = 'old(self).%s@' % m
+    M1 = 'final(self).%s@' % m
+    K = 's2s(key)'
+    Q0 = 'old(self).order@'
+    Q1 = 'touch(old(self).order@, %s)' % K
+    OVERSIZE = '(old(self).max_memory is Some && value.mem() > old(self).max_memory->Some_0)'
+    MEMFITS = '(old(self).max_memory is None || mem_total(%s.remove(%s), rm1(%s, %s)) + value.mem() <= old(self).max_memory->Some_0)' % (M0, K, Q0, K)
+    return [
+        CFG_FRAME,
+        ('post_wf', ['C04', 'C05', 'C13'], 'wf(%s, final(self).order@)' % M1),
+        ('stats_frame', ['C15'], 'final(self).stats == old(self).stats'),
+        ('oversize_not_cached', ['C05'], '%s ==> %s == %s.remove(%s) && final(self).order@ == rm1(%s, %s)' % (OVERSIZE, M1, M0, K, Q0, K)),
+        ('total_le_max', ['C05'], '(old(self).max_memory is Some && !%s) ==> mem_total(%s, final(self).order@) <= old(self).max_memory->Some_0' % (OVERSIZE, M1)),
+        ('fits_no_eviction', ['C05', 'C03', 'C04'], '(!%s && %s && (old(self).limit is None || %s.len() <= old(self).limit->Some_0)) ==> '
+         'final(self).order@ == %s && %s.dom() == %s.dom().insert(%s)' % (OVERSIZE, MEMFITS, Q1, Q1, M1, M0, K)),
+        ('survivors_unchanged', ['C01', 'C05'], 'forall|x: String| x != %s && #[trigger] %s.contains_key(x) ==> %s.contains_key(x) && %s[x] == %s[x]' % (K, M1, M0, M1, M0)),
+        ('last_store_wins', ['C01', 'C11'], '%s.contains_key(%s) ==> %s[%s].value == value && %s[%s].frequency == 0' % (M1, K, M1, K, M1, K)),
+        ('fifo_lru_oldest_first', ['C07'], '(!%s && (old(self).policy is FIFO || old(self).policy is LRU)) ==> is_suffix(final(self).order@, %s)' % (OVERSIZE, Q1)),
+        ('bound', ['C04'], '(old(self).limit is Some && old(self).limit->Some_0 >= 1 && old(self).order@.len() <= old(self).limit->Some_0) ==> final(self).order@.len() <= old(self).limit->Some_0'),
+    ]
